@@ -60,21 +60,73 @@ def spec_for(cls):
     return None, None
 
 
-def _outside(term):
-    """the leaf of a closure's piecewise term in the region r > sigma"""
-    ps, fs = P.conds(term)
+def _rs_key():
+    key = (N.reg(R), N.reg(S)) if repr(N.reg(R)) <= repr(N.reg(S)) else (N.reg(S), N.reg(R))
+    return key, key[0] != N.reg(R)
+
+
+def _extras(*terms):
+    """Valuations of the comparison atoms other than r-vs-sigma that occur in the piecewise terms (e.g. the
+    `gamma > 50` of an np.minimum clamp).  A closure relation is claimed for *every* gamma and u, so each rule
+    must hold in every such region.  Only comparisons whose three orderings are all certainly inhabited are
+    accepted: the difference of the operands must be of degree one in a single free symbol (gamma or u)."""
+    ps, fs = set(), set()
+    for t in terms:
+        P.conds(t, ps, fs)
     if fs:
         raise Unsupported('closure term depends on non-ordering conditions %s' % sorted(fs))
-    key = (N.reg(R), N.reg(S)) if repr(N.reg(R)) <= repr(N.reg(S)) else (N.reg(S), N.reg(R))
-    flipped = key[0] != N.reg(R)
-    for p in ps:
-        if p != key:
-            raise Unsupported('closure mask compares something other than r and sigma: %s vs %s'
-                              % (N.show(N.nf_from_key(p[0])), N.show(N.nf_from_key(p[1]))))
-    def at(o):
+    key, _ = _rs_key()
+    extras = sorted((p for p in ps if p != key), key=repr)
+    for p in extras:
+        a, b = N.nf_from_key(p[0]), N.nf_from_key(p[1])
+        d = a - b
+        syms = d.symbols()
+        if syms & {'r', 'sigma'}:
+            raise Unsupported('closure mask compares something other than r and sigma: %s vs %s' % (N.show(a), N.show(b)))
+        ok = len(syms) == 1 and d.is_poly() and all(a_[0] == 'sym' for a_ in d.all_atoms())
+        if ok:
+            sname = next(iter(syms))
+            ok = sname in ('g', 'u') and N.diff(d, sname).is_const() and not N.diff(d, sname).is_zero()
+        if not ok:
+            raise Unsupported('data condition %s vs %s: cannot certify that all three orderings occur' % (N.show(a), N.show(b)))
+    if len(extras) > 4:
+        raise Unsupported('too many data conditions in a closure term')
+    import itertools
+    return [dict(zip(extras, outs)) for outs in itertools.product(('lt', 'eq', 'gt'), repeat=len(extras))]
+
+
+def _origin_region(extras_vals):
+    """the region (valuation of the extra conditions) that contains gamma = u = 0"""
+    if not extras_vals:
+        return {}
+    v = {}
+    for p in extras_vals[0]:
+        d = N.subs(N.nf_from_key(p[0]) - N.nf_from_key(p[1]), {'g': 0, 'u': 0})
+        if not d.is_const():
+            raise Unsupported('cannot locate the origin relative to a data condition')
+        c = d.const_value()
+        v[p] = 'lt' if c < 0 else ('eq' if c == 0 else 'gt')
+    return v
+
+
+def _outside(term):
+    """at(o, extra) -> the leaf of a closure's piecewise term where r <o> sigma and the extra conditions hold"""
+    key, flipped = _rs_key()
+    _extras(term)
+
+    def at(o, extra=None):
         o2 = {'lt': 'gt', 'gt': 'lt', 'eq': 'eq'}[o] if flipped else o
-        return P.at(term, {key: o2})
+        val = {key: o2}
+        val.update(extra or {})
+        return P.at(term, val)
     return at
+
+
+def _pointwise_fragment(term):
+    """None when every leaf is built from pointwise operators only (the fragment in which a difference of normal
+    forms is a difference of functions); otherwise the offending atoms"""
+    bad = _non_elementwise_atoms(term)
+    return bad or None
 
 
 def rule_definition(ctx, rule='R09.d'):
@@ -90,7 +142,13 @@ def rule_definition(ctx, rule='R09.d'):
                 term = t.t if isinstance(t, (Arr, Num)) else None
                 if term is None:
                     raise Unsupported('calculate does not return an array term')
-                out = _outside(term)('gt')
+                npw = _pointwise_fragment(term)
+                if npw:
+                    raise Unsupported('extracted term contains non-pointwise operators %s (reported by R09.e); '
+                                      'its comparison with the reference is not decidable by normal forms' % npw[:3])
+                at = _outside(term)
+                regions = _extras(term)
+                out = at('gt', regions[0])
             except (Unsupported, Raised) as e:
                 ctx.undecided(rule, cname, 'apply_hard_core=%s: %s' % (flag, e), f.loc())
                 continue
@@ -100,7 +158,18 @@ def rule_definition(ctx, rule='R09.d'):
                           'spec/closures.py; generic rules only (extracted: %s)' % (flag, N.show(out)),
                           f.loc(), nontrivial=False)
                 continue
-            hit = [nm for nm, ref in refs if out.equals(ref)]
+            hit = [nm for nm, ref in refs if all(at('gt', ev).equals(ref) for ev in regions)]
+            if not hit and len(regions) > 1:
+                for ev in regions:
+                    if not any(at('gt', ev).equals(ref) for nm, ref in refs):
+                        out = at('gt', ev)
+                        ctx.violation(rule, cname, 'definition:outside-core',
+                                      'apply_hard_core=%s: in the region {%s} the extracted c(gamma,u) = %s differs from every '
+                                      'accepted reference (%s)' % (flag, P.show_val(ev), N.show(out),
+                                                                   '; '.join('%s: %s' % (nm, N.show(ref)) for nm, ref in refs)),
+                                      f.loc(), extracted=N.show(out), flag=flag)
+                        break
+                continue
             if hit:
                 ctx.holds(rule, cname, 'apply_hard_core=%s: c(gamma,u) == %s reference' % (flag, hit[0]), f.loc(),
                           key='flag=%s' % flag,
@@ -123,29 +192,39 @@ def rule_core(ctx, rule='R03.a'):
             w = run_closure(ctx.prog, dcls, True)
             wf = run_closure(ctx.prog, dcls, False)
             term = w['res'].t
-            at = _outside(term)
             free = wf['res'].t
-            if P.is_pw(free):
-                raise Unsupported('flag-free closure term is piecewise')
+            npw = _pointwise_fragment(term) or _pointwise_fragment(free)
+            if npw:
+                raise Unsupported('extracted term contains non-pointwise operators %s (reported by R09.e)' % npw[:3])
+            at = _outside(term)
+            regions = _extras(term, free)
+            key_rs, _ = _rs_key()
+            if key_rs in P.conds(free)[0]:
+                raise Unsupported('flag-free closure term is piecewise in r vs sigma')
         except (Unsupported, Raised) as e:
             ctx.undecided(rule, cname, str(e), f.loc())
             continue
         n += 1
         bad = []
-        for o in ('lt', 'eq'):
-            leaf = at(o)
-            if not leaf.equals(SPEC.CORE):
-                bad.append('at r %s sigma the value is %s, not -1-gamma' % ({'lt': '<', 'eq': '=='}[o], N.show(leaf)))
-        if not at('gt').equals(free):
-            bad.append('at r > sigma the value is %s, not the closure relation %s' % (N.show(at('gt')), N.show(free)))
+        for ev in regions:
+            where = (' (region {%s})' % P.show_val(ev)) if ev else ''
+            for o in ('lt', 'eq'):
+                leaf = at(o, ev)
+                if not leaf.equals(SPEC.CORE):
+                    bad.append('at r %s sigma%s the value is %s, not -1-gamma' % ({'lt': '<', 'eq': '=='}[o], where, N.show(leaf)))
+            fl = P.at(free, ev) if P.is_pw(free) else free
+            if not at('gt', ev).equals(fl):
+                bad.append('at r > sigma%s the value is %s, not the closure relation %s' % (where, N.show(at('gt', ev)), N.show(fl)))
+            if bad:
+                break
         if bad:
             ctx.violation(rule, cname, 'core-branch', '; '.join(bad), f.loc())
         else:
             ctx.holds(rule, cname, 'c+gamma == -1 on r<sigma and r==sigma; closure relation on r>sigma '
                       '(3 orderings enumerated)', f.loc(),
-                      sample={'closure': dcls.name, 'orderings': {'r<sigma': N.show(at('lt')),
-                                                                 'r==sigma': N.show(at('eq')),
-                                                                 'r>sigma': N.show(at('gt'))}})
+                      sample={'closure': dcls.name, 'orderings': {'r<sigma': N.show(at('lt', regions[0])),
+                                                                 'r==sigma': N.show(at('eq', regions[0])),
+                                                                 'r>sigma': N.show(at('gt', regions[0]))}})
     ctx.floor(rule, n, 4, 'closures with a hard-core branch')
 
 
@@ -158,28 +237,41 @@ def rule_noflag_limit(ctx, rule='R03.c'):
         cname = dcls.qualname
         try:
             w = run_closure(ctx.prog, dcls, False)
-            term = w['res'].t
-            if P.is_pw(term):
-                raise Unsupported('piecewise flag-free term')
+            pterm = w['res'].t
+            npw = _pointwise_fragment(pterm)
+            if npw:
+                raise Unsupported('extracted term contains non-pointwise operators %s (reported by R09.e)' % npw[:3])
+            regions = _extras(pterm)
+            if any('u' in N.nf_from_key(k).symbols() for ev in regions[:1] for p in ev for k in p):
+                raise Unsupported('flag-free term branches on u: the limit u -> infinity selects a region that is not modelled')
+            key_rs, _ = _rs_key()
+            if key_rs in P.conds(pterm)[0]:
+                raise Unsupported('piecewise (r vs sigma) flag-free term')
             z = N.sym('@z')
             eu = ('exp', ((('sym', 'u'), N.ONE),))
-            t2 = N.transform(term, lambda a: (1 / z) if a == eu else None)
-            if 'u' in t2.symbols():
-                raise Unsupported('u occurs outside exp(-u): %s' % N.show(t2))
-            if not t2.is_poly() or any(e < 0 for m in t2.num for a, e in m if a == ('sym', '@z')):
-                ctx.violation(rule, cname, 'noflag-limit', 'term diverges as exp(-u)->0: %s' % N.show(term), f.loc())
-                n += 1
-                continue
-            lim = N.subs(t2, {'@z': 0})
+            verdict = None
+            for ev in regions:
+                term = P.at(pterm, ev) if P.is_pw(pterm) else pterm
+                where = (' in the region {%s}' % P.show_val(ev)) if ev else ''
+                t2 = N.transform(term, lambda a: (1 / z) if a == eu else None)
+                if 'u' in t2.symbols():
+                    raise Unsupported('u occurs outside exp(-u): %s' % N.show(t2))
+                if not t2.is_poly() or any(e < 0 for m in t2.num for a, e in m if a == ('sym', '@z')):
+                    verdict = 'term diverges as exp(-u)->0%s: %s' % (where, N.show(term))
+                    break
+                lim = N.subs(t2, {'@z': 0})
+                if not lim.equals(SPEC.CORE):
+                    verdict = 'exp(-u):=0 gives %s%s, not -1-gamma' % (N.show(lim), where)
+                    break
         except (Unsupported, Raised) as e:
             ctx.undecided(rule, cname, str(e), f.loc())
             continue
         n += 1
-        if lim.equals(SPEC.CORE):
+        if verdict is None:
             ctx.holds(rule, cname, 'exp(-u):=0 in the flag-free term gives -1-gamma', f.loc(),
                       sample={'closure': dcls.name, 'term': N.show(term), 'limit': N.show(lim)})
         else:
-            ctx.violation(rule, cname, 'noflag-limit', 'exp(-u):=0 gives %s, not -1-gamma' % N.show(lim), f.loc())
+            ctx.violation(rule, cname, 'noflag-limit', verdict, f.loc())
     ctx.floor(rule, n, 2, 'PY/HNC no-flag limits')
 
 
@@ -191,8 +283,17 @@ def rule_weak_coupling(ctx, rule='R09.w'):
         try:
             w = run_closure(ctx.prog, dcls, False)
             term = w['res'].t
+            npw = _pointwise_fragment(term)
+            if npw:
+                raise Unsupported('extracted term contains non-pointwise operators %s (reported by R09.e)' % npw[:3])
             if P.is_pw(term):
-                raise Unsupported('piecewise flag-free term')
+                org = _origin_region(_extras(term))
+                if any(o == 'eq' for o in org.values()):
+                    raise Unsupported('the origin lies on a branch boundary of the flag-free term')
+                key_rs, _ = _rs_key()
+                if key_rs in P.conds(term)[0]:
+                    raise Unsupported('piecewise (r vs sigma) flag-free term')
+                term = P.at(term, org)
             z = {'u': 0, 'g': 0}
             c0 = N.subs(term, z)
             du = N.subs(N.diff(term, 'u'), z)
@@ -258,8 +359,86 @@ def rule_elementwise(ctx, rule='R09.e'):
     ctx.floor(rule, n, 8, 'closure terms checked for pointwise structure')
 
 
+INPUT_ATTRS = ('self.potential', 'self.sigma', 'self.apply_hard_core')
+
+
+def run_twice(prog, cls, flag, preset=()):
+    """two consecutive evaluations of the same closure object with *different* symbolic potential and gamma"""
+    ip = Interp(prog)
+    ip.preset = list(preset)
+    for s_, k in (('u', 'curve'), ('g', 'curve'), ('r', 'curve'), ('sigma', 'scalar'), ('u1', 'curve'), ('g1', 'curve')):
+        ip.declare(s_, k)
+    o = ip.construct(cls, [], {'apply_hard_core': Const(flag)})
+    o.origin = 'self'
+    o.attrs['sigma'] = Num(S)
+    r = Arr(R, 'r', ip)
+    m = ip.find_method(o, 'calculate')
+    # first call: (u1, g1)
+    o.attrs['potential'] = Arr(N.sym('u1'), 'self.potential', ip)
+    ip.call(m, [r, Arr(N.sym('g1'), 'gamma', ip)], {})
+    # the user (or PRISM.__init__ of a re-created object) installs another potential, the solver another gamma
+    o.attrs['potential'] = Arr(U, 'self.potential', ip)
+    res = ip.call(m, [r, Arr(G, 'gamma', ip)], {})
+    return ip, {'res': res, 'obj': o}
+
+
+def rule_history(ctx, rule='R09.h'):
+    """The value returned by calculate depends only on the arguments and the *current* potential/sigma, never on an
+    earlier evaluation (a cached exponential, a remembered mask ...).  Two-step induction: evaluate the object on
+    (u1,g1), then on (u,g); the second result and every attribute left on the object must be the terms a fresh object
+    yields for (u,g).  Then the object state after any call is a function of that call's inputs only, so every
+    history of evaluations gives the same values as a fresh closure."""
+    from ..interp import explore
+    n = 0
+    for dcls, f, users in defining_classes(ctx.prog):
+        cname = dcls.qualname
+        for flag in (False, True):
+            try:
+                fresh = run_closure(ctx.prog, dcls, flag)
+                worlds = explore(lambda preset: run_twice(ctx.prog, dcls, flag, preset))
+            except (Unsupported, Raised) as e:
+                ctx.undecided(rule, cname, 'apply_hard_core=%s: %s' % (flag, e), f.loc())
+                continue
+            n += 1
+            bad = []
+            ft = fresh['res'].t
+            for dec, ip, w in worlds:
+                where = ''
+                if dec:
+                    where = ' (when %s)' % ', '.join('%s is %s' % (c.show(), b) for c, b, _ in dec)
+                t2 = w['res'].t if isinstance(w['res'], (Arr, Num)) else None
+                if t2 is None:
+                    bad.append('second evaluation does not return an array term' + where)
+                    continue
+                diffs, _ = P.compare(t2, ft)
+                if diffs:
+                    v, lx, ly = diffs[0]
+                    bad.append('second evaluation returns %s where a fresh closure returns %s%s: the value depends on an '
+                               'earlier call' % (N.show(lx)[:160], N.show(ly)[:160], where))
+                    continue
+                for a, v in sorted(w['obj'].attrs.items()):
+                    fv = fresh['obj'].attrs.get(a)
+                    if isinstance(v, (Arr, Num)) and isinstance(fv, (Arr, Num)):
+                        try:
+                            d2, _ = P.compare(v.t, fv.t)
+                        except Exception:
+                            d2 = [1]
+                        if d2:
+                            bad.append('attribute %s after two calls is %s, after one call %s%s: state is carried between calls'
+                                       % (a, P.show(v.t)[:120], P.show(fv.t)[:120], where))
+            if bad:
+                ctx.violation(rule, cname, 'history', 'apply_hard_core=%s: %s' % (flag, bad[0]), f.loc())
+            else:
+                ctx.holds(rule, cname, 'apply_hard_core=%s: re-evaluation with another potential and gamma gives the terms of a '
+                          'fresh closure (%d path(s)); no state carried between calls' % (flag, len(worlds)), f.loc(),
+                          key='flag=%s' % flag)
+    ctx.floor(rule, n, 8, 'closure two-call history obligations')
+
+
 def rule_purity(ctx, rule='R09.p'):
-    """calculate writes nothing but self.value; inputs unmodified; result not an alias of an input"""
+    """calculate modifies none of its inputs (r, gamma, self.potential, self.sigma, the flag) in place or by
+    rebinding; the result is not an alias of an input.  Other attributes may be (re)bound as caches: whether
+    they carry state between calls is decided by R09.h"""
     n = 0
     for dcls, f, users in defining_classes(ctx.prog):
         cname = dcls.qualname
@@ -274,8 +453,8 @@ def rule_purity(ctx, rule='R09.p'):
             for e in w['events']:
                 if e['kind'] == 'write':
                     bad.append('in-place write to %s at %s (%s)' % (e['target'], e['loc'], e.get('via')))
-                elif e['kind'] == 'bind' and e['target'] not in ('self.value',):
-                    bad.append('attribute %s rebound at %s' % (e['target'], e['loc']))
+                elif e['kind'] == 'bind' and e['target'] in INPUT_ATTRS:
+                    bad.append('input attribute %s rebound at %s' % (e['target'], e['loc']))
                 elif e['kind'] == 'unknown-call':
                     bad.append('unknown call %s' % e['target'])
             res = w['res']
@@ -289,8 +468,8 @@ def rule_purity(ctx, rule='R09.p'):
             if bad:
                 ctx.violation(rule, cname, 'purity', 'apply_hard_core=%s: %s' % (flag, '; '.join(bad)), f.loc())
             else:
-                ctx.holds(rule, cname, 'apply_hard_core=%s: writes = {self.value}; r, gamma, potential untouched; '
-                          'result is a fresh array' % flag, f.loc(), key='flag=%s' % flag)
+                ctx.holds(rule, cname, 'apply_hard_core=%s: r, gamma, potential, sigma untouched (no in-place write, no '
+                          'rebinding); result is a fresh array' % flag, f.loc(), key='flag=%s' % flag)
     ctx.floor(rule, n, 8, 'closure purity obligations')
 
 
@@ -342,7 +521,17 @@ def rule_mask_sites(ctx, rule='R03.b'):
         except (Unsupported, Raised) as e:
             ctx.undecided(rule, cname, str(e), f.loc())
             continue
+        npw = _pointwise_fragment(term)
+        if npw:
+            ctx.undecided(rule, cname, 'core region is selected by non-pointwise operators %s (reported by R09.e): '
+                          'equivalent to the mask only on sorted grids' % npw[:2], f.loc())
+            continue
         ps, fs = P.conds(term)
+        try:
+            extra_pairs = set(_extras(term)[0].keys())
+        except Unsupported:
+            extra_pairs = set()
+        ps = {p for p in ps if p not in extra_pairs}
         n += len(ps)
         want = {N.reg(R), N.reg(S)}
         bad = [p for p in ps if set(p) != want]
